@@ -40,8 +40,10 @@ def _solve(idx):
     t0 = time.time()
     s = z3.Solver()
     s.set("timeout", int(_CFG["z3_timeout"] * 1000))
-    if _CFG.get("seed") is not None:
-        s.set("random_seed", int(_CFG["seed"]) % 1000)
+    # note: plain "random_seed" on the default solver changes its strategy (observed: unsat -> unknown);
+    # the module-qualified parameter does not.
+    if _CFG.get("seed"):
+        s.set("smt.random_seed", int(_CFG["seed"]) % 1000)
     s.add(*hyps)
     s.add(z3.Not(goal))
     r = s.check()
